@@ -4,6 +4,7 @@ import (
 	"fmt"
 	"go/token"
 	"go/types"
+	"strings"
 
 	"golang.org/x/tools/go/ssa"
 )
@@ -43,6 +44,42 @@ func c11WeightArith(c *Ctx) {
 			}
 		}
 	}
+	// the selection key u^(1/w): for weights up to 2^32-1 the keys of different weights differ in about the 10th
+	// significant digit; single precision (24-bit mantissa) rounds them all to 1.0 and the first candidate always wins
+	// (seed c11f). Every float in the sampler — fields of its item type and values in its methods — is float64.
+	{
+		var narrow []string
+		for _, tn := range []string{"Wrs", "WrsItem"} {
+			if st := structOf(c.Named("db", tn)); st != nil {
+				for i := 0; i < st.NumFields(); i++ {
+					if bt, ok := st.Field(i).Type().Underlying().(*types.Basic); ok && bt.Kind() == types.Float32 {
+						narrow = append(narrow, "field "+tn+"."+st.Field(i).Name())
+					}
+				}
+			}
+		}
+		nf := 0
+		for _, fn := range c.OurFuncs("db") {
+			rv := fn.Signature.Recv()
+			if fn.Parent() != nil {
+				rv = fn.Parent().Signature.Recv()
+			}
+			if rv == nil || !(strings.HasSuffix(rv.Type().String(), "db.Wrs") || strings.HasSuffix(rv.Type().String(), "db.WrsItem")) {
+				continue
+			}
+			nf++
+			for _, b := range fn.Blocks {
+				for _, in := range b.Instrs {
+					if v, ok := in.(ssa.Value); ok {
+						if bt, ok := v.Type().Underlying().(*types.Basic); ok && bt.Kind() == types.Float32 {
+							narrow = append(narrow, fmt.Sprintf("%s at %s", fnName(fn), c.relPos(in.Pos())))
+						}
+					}
+				}
+			}
+		}
+		c.Check(rule, "sampler|keys-in-float64", len(narrow) == 0 && nf > 0, token.NoPos, fmt.Sprintf("%d sampler methods examined; single-precision values: %v", nf, narrow))
+	}
 	c.CheckConst(rule, "matcher|weight-reads-seen", uses >= 1, token.NoPos, fmt.Sprintf("%d reads of ResourceRecord.Weight followed, %d arithmetic uses examined", uses, arith))
 }
 
@@ -59,8 +96,8 @@ func c11FollowWeight(c *Ctx, rule string, fn *ssa.Function, v ssa.Value, seen ma
 			return false
 		}
 		switch bt.Kind() {
-		case types.Float64, types.Float32, types.Int64, types.Uint64, types.UntypedFloat:
-			return true
+		case types.Float64, types.Int64, types.Uint64, types.UntypedFloat:
+			return true // float32 is NOT wide: 24 bits of mantissa cannot tell 32-bit weights apart
 		case types.Int, types.Uint, types.Uintptr:
 			return false // 32 bits on GOARCH=386
 		}
